@@ -26,6 +26,7 @@ import (
 
 type cronSc struct {
 	deferEmit *[]func()
+	pending   []*sync.WaitGroup
 	c         *Ctx
 	w         *cronWorld
 	ctx       *sim.Context
@@ -39,9 +40,17 @@ func newCronSc(c *Ctx, now0 int64, jcs ...*execution.JobConfig) *cronSc {
 	return newCronScHook(c, now0, nil, jcs...)
 }
 
-// newCronScHook: duringInit (if any) runs once in the middle of CronWorker.Init (at the
-// first load of the cron config inside cronschedule.New, i.e. after the cache was listed).
 func newCronScHook(c *Ctx, now0 int64, duringInit func(s *cronSc), jcs ...*execution.JobConfig) *cronSc {
+	return newCronScBoot(c, now0, duringInit, "after-init", jcs...)
+}
+
+// newCronScBoot: duringInit (if any) runs once in the middle of CronWorker.Init (at the
+// first load of the cron config inside cronschedule.New, i.e. after the cache was listed).
+// initialAdds says when the cron handler runs the informer's add notifications for the
+// JobConfigs that exist at boot: "before-init", "after-init" (right after CronWorker.Init: the
+// typical production order, the default of the scenarios) or "hold" (the scenario delivers them
+// itself with initialAdd).
+func newCronScBoot(c *Ctx, now0 int64, duringInit func(s *cronSc), initialAdds string, jcs ...*execution.JobConfig) *cronSc {
 	s := &cronSc{c: c, cur: map[string]*jcVersion{}}
 	s.w = &cronWorld{c: c, rng: c.Rng, specIDs: map[string]int{}, maxList: 6000, scale: 1}
 	s.ctx = sim.NewContext()
@@ -65,7 +74,13 @@ func newCronScHook(c *Ctx, now0 int64, duringInit func(s *cronSc), jcs ...*execu
 	s.h = &captureHandler{}
 	s.worker = croncontroller.NewCronWorker(cctx, s.h)
 	infw := croncontroller.NewInformerWorker(cctx, croncontroller.NewUpdateHandler(cctx))
+	s.ctx.Sim().JobConfigs().ReplayOnRegister = true
 	infw.Init()
+	if initialAdds == "before-init" {
+		for _, k := range SortedKeys(s.cur) {
+			s.initialAdd(strings.TrimPrefix(k, "ns/"))
+		}
+	}
 	var lateAdds []func()
 	if duringInit != nil {
 		fired := false
@@ -80,11 +95,34 @@ func newCronScHook(c *Ctx, now0 int64, duringInit func(s *cronSc), jcs ...*execu
 	}
 	err := s.worker.Init()
 	s.ctx.OnCronConfigLoad = nil
+	for _, wg := range s.pending {
+		wg.Wait() // handlers that had to wait for Init
+	}
+	s.pending = nil
 	c.Emit(fmt.Sprintf("cron.init %d %s", now0*1e9, strings.Join(ids, ",")), map[bool]string{true: "ok", false: "err"}[err == nil])
 	for _, f := range lateAdds {
 		f() // the op lines of events that happened during Init follow the init line
 	}
+	if initialAdds == "after-init" {
+		for _, k := range SortedKeys(s.cur) {
+			if s.ctx.Sim().JobConfigs().PendingFor(0) > 0 {
+				s.initialAdd(strings.TrimPrefix(k, "ns/"))
+			}
+		}
+	}
 	return s
+}
+
+// initialAdd lets the cron handler run the informer's add notification for a JobConfig that
+// existed at boot (no-op if it ran already).
+func (s *cronSc) initialAdd(name string) {
+	v := s.cur["ns/"+name]
+	if v == nil || !s.ctx.Sim().JobConfigs().NotifyNextFor(0, "ns/"+name) {
+		return
+	}
+	s.c.Emit(fmt.Sprintf("cron.initial-add %d", v.id), "ok")
+	s.c.Count("cron.initial-add")
+	s.c.Count("cron.initial-add.scenario")
 }
 
 func scJC(name string, expr string, mod func(*execution.JobConfig)) *execution.JobConfig {
@@ -98,8 +136,25 @@ func scJC(name string, expr string, mod func(*execution.JobConfig)) *execution.J
 
 func (s *cronSc) add(jc *execution.JobConfig) {
 	if s.deferEmit != nil {
-		// inside Init: apply now, emit the op lines after the init line
-		s.ctx.Sim().JobConfigs().Apply("add", jc)
+		// inside Init: the cache applies the event now; the handler runs on the informer's own
+		// goroutine, not on Init's (since the repair of F24 it may have to wait for a mutex that
+		// Init holds).  It is given the time to run DURING Init — a handler that does not wait
+		// (the tree before that repair, or one that tests scheduleInitialized too late) takes
+		// its decision now — and is otherwise awaited after Init.  The op lines are emitted after
+		// the init line.
+		inf := s.ctx.Sim().JobConfigs()
+		inf.CacheSet(jc)
+		wg := &sync.WaitGroup{}
+		wg.Add(1)
+		done := make(chan struct{})
+		go func() { defer wg.Done(); defer close(done); inf.NotifyAdd(-1, jc) }()
+		select {
+		case <-done:
+			s.c.Count("cron.sc.add-during-init.ran-during-init")
+		case <-time.After(300 * time.Millisecond):
+			s.c.Count("cron.sc.add-during-init.waited-for-init")
+		}
+		s.pending = append(s.pending, wg)
 		*s.deferEmit = append(*s.deferEmit, func() {
 			v := s.w.describe(jc, tzChoice{"", nil})
 			s.cur[v.key] = v
@@ -220,6 +275,68 @@ func runCronScenarios(c *Ctx) {
 		}
 		if fired == 0 {
 			c.Violate("C03", "change-takes-effect", "nothing fired after notBefore passed")
+		}
+		c.Nontrivial()
+	})
+
+	// F24: the informer notifies the cron handler of the JobConfigs that exist at boot with add
+	// events too, typically after CronWorker.Init loaded them with their catch-up schedule.  Such
+	// an add must not flush the JobConfig: the schedules missed during the downtime would be lost.
+	f24 := func(initialAdds string, deliverLate bool) {
+		// every minute; base is hh:00:30; last scheduled at hh-1:57:00: missed :58, :59, :00
+		jc := scJC("a", "* * * * *", func(jc *execution.JobConfig) { jc.Status.LastScheduled = mt(base - 30 - 180) })
+		s := newCronScBoot(c, base, nil, initialAdds, jc)
+		if deliverLate {
+			s.initialAdd("a")
+		}
+		want := []int64{base - 30 - 120, base - 30 - 60, base - 30}
+		var got []int64
+		for _, f := range s.tick(base + 1) {
+			got = append(got, f.ts)
+		}
+		if fmt.Sprint(got) != fmt.Sprint(want) {
+			c.Violate("C01", "requests-exact", "ns/a at the first tick after a restart (lastScheduled %d, three periods missed, initial add handled %s): requested %v, the schedule implies %v (cap 5)",
+				base-30-180, map[bool]string{true: "after Init", false: initialAdds}[deliverLate], got, want)
+		}
+		for _, f := range s.tick(base + 31) { // hh:01:01
+			got = append(got, f.ts)
+		}
+		if len(got) == 0 || got[len(got)-1] != base+30 {
+			c.Violate("C01", "requests-exact", "ns/a did not continue normally after the catch-up: requested %v in total, the last must be %d", got, base+30)
+		}
+		c.Nontrivial()
+	}
+	c.RunScenario("f24-initial-adds-after-init", func() { f24("hold", true) })
+	c.RunScenario("f24-initial-adds-before-init", func() { f24("before-init", false) })
+	c.RunScenario("f24-initial-adds-after-first-tick", func() {
+		jc := scJC("a", "* * * * *", func(jc *execution.JobConfig) { jc.Status.LastScheduled = mt(base - 30 - 180) })
+		s := newCronScBoot(c, base, nil, "hold", jc)
+		if got := s.tick(base + 1); len(got) != 3 {
+			c.Violate("C01", "requests-exact", "ns/a at the first tick after a restart: requested %v, three missed times expected", got)
+		}
+		s.initialAdd("a")
+		got := s.tick(base + 31)
+		if len(got) != 1 || got[0].ts != base+30 {
+			c.Violate("C01", "requests-exact", "ns/a after a late initial add: requested %v at hh:01:01, the schedule implies [%d]", got, base+30)
+		}
+		c.Nontrivial()
+	})
+
+	// The record of what Init loaded must not swallow a genuine creation (F1 stays repaired): the
+	// add of "a" is handled before Init (so its record is never consumed by an add), then "a" is
+	// deleted and created again under the SAME UID with an every-minute schedule.
+	c.RunScenario("f24-recreate-after-unconsumed-load", func() {
+		s := newCronScBoot(c, base, nil, "before-init", scJC("a", "0 0 1 1 *", nil))
+		s.tick(base + 1)
+		s.del("a")
+		s.tick(base + 5)
+		s.add(scJC("a", "* * * * *", nil)) // scJC derives the UID from the name: same UID
+		var got []fired
+		for t := base + 6; t < base+200; t += 9 {
+			got = append(got, s.tick(t)...)
+		}
+		if len(got) == 0 {
+			c.Violate("C03", "change-takes-effect", "JobConfig deleted and created again under the same UID fired nothing in 200s of ticks (every-minute schedule)")
 		}
 		c.Nontrivial()
 	})
